@@ -60,6 +60,9 @@ int main() {
         if (o == "edge") { std::vector<typename ST::Simplex_handle> added; inc->insert_edge_as_flag((int)L(t[1]), (int)L(t[2]), (double)L(t[3]), (int)L(t[4]), added);
           std::vector<S> a; for (auto sh : added) a.push_back(verts(*inc, sh)); std::sort(a.begin(), a.end()); r << "added"; for (auto& s : a) r << " " << W(s); return r.str(); }
         if (o == "cplx") return cplx(*inc);
+        if (o == "inceq") {   // inceq d : the incremental tree against the one-shot expansion of the same graph (stored dimension, operator==)
+          ST st; build(st, g); int d = (int)L(t[1]); st.expansion(d < 0 ? 64 : d);
+          r << "inceq dim=" << inc->dimension() << " eq=" << ((st == *inc && *inc == st) ? 1 : 0); return r.str(); }
         if (o == "mfnd") { inc->make_filtration_non_decreasing(); return "mfnd"; }
       }
       return "unsupported"; });
